@@ -42,6 +42,22 @@ class Bitwise(Contract):
                             continue
                         yield dict(op=op, x=[sx, n, f], y='mask', shape=[])
                         yield dict(op=op, x=[sx, n, f], y='rmask', shape=[])
+        # arrays (1-d, 2-d in C and Fortran memory order) with an integer mask / inverted: every position keeps its own word
+        for n in (3, 8, 64):
+            for sx in (True, False):
+                for shape, fo in (([2], False), ([2, 2], False), ([2, 2], True), ([2, 3], True)):
+                    if n < 64 or shape != [2, 3]:
+                        yield dict(op='invert', x=[sx, n, 0], y=None, shape=shape, forder=fo)
+                    if n >= 64 or shape == [2, 3]:
+                        continue
+                    for op in ('and', 'or', 'xor'):
+                        yield dict(op=op, x=[sx, n, 0], y='mask', shape=shape, forder=fo)
+        for n in (63, 64, 65):
+            for sx in (True, False):
+                yield dict(op='invert', x=[sx, n, 0], y=None, shape=[2], forder=False, wide_array=True)
+                if sx:
+                    for op in ('and', 'xor'):
+                        yield dict(op=op, x=[sx, n, 0], y='mask', shape=[2], forder=False, wide_array=True)
         for op in ('and', 'or', 'xor'):
             yield dict(op=op, x=[True, 8, 0], y=[True, 9, 0], shape=[], reject=True)
             yield dict(op=op, x=[False, 16, 3], y=[True, 8, 3], shape=[], reject=True)
@@ -58,7 +74,7 @@ class Bitwise(Contract):
 
     def run(self, cfg, P, inp):
         s, n, f = cfg['x']
-        x = make_fxp(P, s, n, f, codes=inp['cx'], shape=tuple(cfg['shape']), cfg={'overflow': 'wrap', 'rounding': 'ceil'}, vdtype=float)
+        x = make_fxp(P, s, n, f, codes=inp['cx'], shape=tuple(cfg['shape']), cfg={'overflow': 'wrap', 'rounding': 'ceil'}, vdtype=float, forder=bool(cfg.get('forder')))
         b = dict(x.__dict__); v0 = list(elems(x.val))
         if cfg['op'] == 'invert':
             z = ~x
@@ -84,8 +100,11 @@ class Bitwise(Contract):
         lo, hi = range_of(s, n)
         out = {'format': And(obs['signed'] == s, obs['n_word'] == n, obs['n_frac'] == f, obs['dtype'] == fmt_str(s, n, f)),
                'operand_unchanged': obs['unchanged'], 'separate_state': obs['separate'],
-               'no_flags': And(Not(B(obs['status']['overflow'])), Not(B(obs['status']['underflow'])))}
+               'no_flags': And(Not(B(obs['status']['overflow'])), Not(B(obs['status']['underflow']))),
+               'shape': list(obs['val'].shape) == cfg['shape']}
         cz = [M(c) for c in elems(obs['val'])]
+        if len(cz) != len(inp['cx']):
+            return out
         for i, c in enumerate(inp['cx']):
             px = pat(M(c), n)
             pz = pat(cz[i], n)
